@@ -140,13 +140,14 @@ def snapshot (n : Names) (m : M) : String :=
   let i (k : Nat) : String := toString ((k : Int) - 1)
   s!"sp={i m.vs.length} csp={i m.cs.length} cg={n.nameOf m.cg} co={n.nameOf m.r.co} po={n.nameOf m.r.prevOb} " ++
   s!"prog={if m.r.prog == 0 then "0" else "p" ++ toString m.r.prog} ct={m.r.callerType} fp={i m.r.fp} " ++
-  s!"pc={if m.r.pc == 0 then "null" else "set"} fio={m.r.fio} vio={m.r.vio} ctx={m.ctxs.length}"
+  s!"pc={if m.r.pc == 0 then "null" else "set"} fio={m.r.fio} vio={m.r.vio} ctx={m.ctxs.length} " ++
+  s!"ld={m.loadDepth} rd={n.nameOf m.restrictDestruct}"
 
 /-- the fixed probe evaluation (harness/mudlib/c05/probe.c): its output depends on command_giver and on the
     side state only -/
 def probeText (n : Names) (baseCg : Val) (m : M) : String :=
   let inp : String := if n.objs.contains "u1" then (if m.installed.contains "input_to" || m.installed.contains "get_char" then "1" else "0") else "-1"
-  s!"caught *probe-err ; probe tp={n.nameOf baseCg} po=0 a=3,4 e=*probe-err  co=42 side in={inp}"
+  s!"caught *probe-err ; probe tp={n.nameOf baseCg} po=0 d=0 l=0 a=3,4 e=*probe-err  co=42 side in={inp}"
 
 def joinSemi (xs : List String) : String := " ; ".intercalate xs
 
